@@ -76,6 +76,7 @@ __all__ = [*dataclasses.__all__]
 
 
 _FIELDS = '__optree_dataclass_fields__'
+_MADE_BY_MAKE_DATACLASS = '__optree_dataclass_made_by_make_dataclass__'
 _PYTREE_NODE_DEFAULT: bool = True
 
 
@@ -300,7 +301,13 @@ def dataclass(  # noqa: C901,D417 # pylint: disable=function-redefined,too-many-
     if namespace == '':
         raise ValueError('The namespace cannot be an empty string.')
 
-    cls = dataclasses.dataclass(cls, **kwargs)  # type: ignore[assignment]
+    if not cls.__dict__.get(_MADE_BY_MAKE_DATACLASS, False):
+        cls = dataclasses.dataclass(cls, **kwargs)  # type: ignore[assignment]
+    else:
+        # The class was created by `dataclasses.make_dataclass()` in `make_dataclass()` with the
+        # same arguments. Do not process it twice: that loses the field metadata and fails for
+        # `frozen=True`, `order=True`, and `unsafe_hash=True`.
+        delattr(cls, _MADE_BY_MAKE_DATACLASS)
 
     children_fields = {}
     metadata_fields = {}
@@ -460,4 +467,5 @@ def make_dataclass(  # type: ignore[no-redef] # noqa: C901,D417
     )
     dataclass_kwargs.pop('slots', None)  # already defined in `make_dataclass()`
     dataclass_kwargs.pop('weakref_slot', None)  # already used in `make_dataclass()`
+    setattr(cls, _MADE_BY_MAKE_DATACLASS, True)  # already processed by `dataclasses.dataclass()`
     return dataclass(cls, **dataclass_kwargs, namespace=namespace)  # type: ignore[call-overload]
